@@ -13,7 +13,8 @@ From Anthem Require Import Base.ISet Syntax.Fol Syntax.Asp Sem.Domain Sem.Sat Se
   Model.Completion Model.ExternalFull
   Proofs.ExtendAll Proofs.SemBase Proofs.DecomposeOk Proofs.StrongOk Proofs.ExternalOk Proofs.AssemblyOk Proofs.RenameOk
   Proofs.TightnessOk Proofs.TauStarClassical Proofs.CompletionOk Proofs.FagesBridge Proofs.PlaceholderOk
-  Proofs.PrivateUnique Proofs.C19Ext Proofs.C02Ok Proofs.C02Full Proofs.HeadPred Proofs.HeadPredPipeline Proofs.C02Priv.
+  Proofs.PrivateUnique Proofs.C19Ext Proofs.C02Ok Proofs.C02Full Proofs.HeadPred Proofs.HeadPredPipeline Proofs.C02Priv
+  Proofs.MissingOutputs.
 Import ListNotations.
 Open Scope string_scope.
 Open Scope list_scope.
@@ -52,8 +53,16 @@ Proof.
   intros Hts Htr Hag. unfold theory_translate, tau_star_total in Htr. rewrite Hts in Htr.
   fold (task_inputs t) in Htr.
   destruct (completion (rp_theory (task_placeholders t) G) (task_inputs t)) as [D|] eqn:HD; [|discriminate].
-  assert (E : forall N, tvalid FI N th <-> (forall f, In f D -> cvalid FI N f)).
-  { intros N. injection Htr as <-. unfold tvalid. destruct (et_simplify t); [apply simp_theory_sound|tauto]. }
+  cbv zeta in Htr. set (outs := ug_output_predicates (et_user_guide t)) in *.
+  assert (E : forall N, tvalid FI N th <->
+                (forall f, In f D -> cvalid FI N f) /\
+                (forall q, In q outs -> ~ In q (theory_predicates D) -> forall d, List.length d = parity q -> ~ N (psym q) d)).
+  { intros N. rewrite <- (missing_outputs_valid FI N outs D).
+    assert (E0 : tvalid FI N th <-> (forall f, In f (D ++ missing_output_definitions outs D) -> cvalid FI N f)).
+    { injection Htr as <-. unfold tvalid. destruct (et_simplify t); [apply simp_theory_sound|tauto]. }
+    rewrite E0. split.
+    - intros H. split; intros f Hf; apply H, in_or_app; auto.
+    - intros [H1 H2] f Hf. apply in_app_or in Hf. destruct Hf; auto. }
   rewrite !E.
   assert (Hincl : incl (theory_predicates (rp_theory (task_placeholders t) G)) (ext_voc t P)).
   { intros q Hq. rewrite rp_theory_predicates in Hq. apply (tau_star_predicates P G q Hts) in Hq.
@@ -61,7 +70,14 @@ Proof.
   rewrite (completion_restrict _ _ _ FI N1 (ext_voc t P) HD Hincl), (completion_restrict _ _ _ FI N2 (ext_voc t P) HD Hincl).
   assert (Hr : forall f e, csat FI (restrict (ext_voc t P) N1) e f <-> csat FI (restrict (ext_voc t P) N2) e f).
   { intros f e. apply csat_pagree. intros p a _. unfold restrict. split; intros [H1 H2]; split; auto; apply (Hag p a H2); exact H1. }
-  split; intros H f Hf e; apply Hr; apply H; exact Hf.
+  assert (Ho : forall q d, In q outs -> List.length d = parity q -> (N1 (psym q) d <-> N2 (psym q) d)).
+  { intros q d Hq Hl. apply Hag. unfold ext_voc. apply in_or_app. right.
+    unfold ug_public_predicates. apply in_iset_extend. right. rewrite Hl. destruct q; exact Hq. }
+  split; intros [H H'].
+  - split; [intros f Hf e; apply Hr; apply H; exact Hf|].
+    intros q Hq Hn d Hl Hd. apply (H' q Hq Hn d Hl). apply (Ho q d Hq Hl). exact Hd.
+  - split; [intros f Hf e; apply Hr; apply H; exact Hf|].
+    intros q Hq Hn d Hl Hd. apply (H' q Hq Hn d Hl). apply (Ho q d Hq Hl). exact Hd.
 Qed.
 
 (* the public predicates of the task *)
@@ -73,7 +89,7 @@ Definition pub_agree (t : ext_task) (N M : pint) : Prop :=
 Theorem ext_stable_public_part t P G th FI M :
   is_tight P = true ->
   (forall r h, In r P -> head_pred (rhead r) = Some h -> ~ In h (task_inputs t)) ->
-  outputs_occur_in t P ->
+  c_io_disjoint t = true ->
   TauStar.tau_star P = Some G -> translate t (task_placeholders t) P = Some th ->
   has_private_recursion P (private_predicates (ug_public_predicates (et_user_guide t)) (program_preds P)) = false ->
   tvalid FI M (assumptions_of (control_translate (ug_public_predicates (et_user_guide t)) th)) ->
@@ -121,7 +137,6 @@ Theorem C02_behaviour_proof t L w pbs lft rgt :
   external_decompose_full fuel t = XOk w pbs ->
   is_tight L = true -> is_tight (et_program t) = true ->
   tl t L = Some lft -> tr t = Some rgt ->
-  outputs_occur t ->
   (forall vt, task_validated tau_star_total completion (simp_classic_total fuel) t = Some vt -> validated_no_clash vt) ->
   forall FI M,
     tvalid FI M (map (fun a => rp_formula (task_placeholders t) (an_formula a)) (filter is_assumption (ug_formulas (et_user_guide t)))) ->
@@ -134,12 +149,11 @@ Theorem C02_behaviour_proof t L w pbs lft rgt :
       ext_stable_full t FI (reindex (task_mapping t) M) (et_program t) /\
       ~ exists N, pub_agree t N M /\ ext_stable_full t FI N L)).
 Proof.
-  intros Hs Ho Hfull HtL HtR El Er Hoc Hn FI M Hug Hal Har.
-  rewrite (C02_full_proof fuel t L w pbs lft rgt Hs Ho Hfull HtL HtR El Er Hoc Hn FI M Hug Hal Har).
-  destruct Hoc as [HoL HoR]. rewrite Hs in HoL.
+  intros Hs Ho Hfull HtL HtR El Er Hn FI M Hug Hal Har.
+  rewrite (C02_full_proof fuel t L w pbs lft rgt Hs Ho Hfull HtL HtR El Er Hn FI M Hug Hal Har).
   destruct (full_ok_inv fuel t w pbs Hfull) as [[w0 Hv] [_ [[GR HGR] HGL]]].
   destruct (HGL L Hs) as [GL HGL'].
-  destruct (validate_conditions _ _ t w0 Hv) as [_ [Hpr [Hhead _]]].
+  destruct (validate_conditions _ _ t w0 Hv) as [_ [Hpr [Hhead [HoL _]]]]. pose proof HoL as HoR.
   unfold c_no_private_recursion in Hpr. rewrite Hs in Hpr. apply andb_true_iff in Hpr.
   destruct Hpr as [HpR HpL]. apply negb_true_iff in HpR, HpL.
   unfold c_no_input_in_head in Hhead. rewrite Hs in Hhead. apply andb_true_iff in Hhead. destruct Hhead as [HhR HhL].
@@ -188,7 +202,6 @@ Theorem C02_countermodel_proof t L w pbs lft rgt :
   external_decompose_full fuel t = XOk w pbs ->
   is_tight L = true -> is_tight (et_program t) = true ->
   tl t L = Some lft -> tr t = Some rgt ->
-  outputs_occur t ->
   (forall vt, task_validated tau_star_total completion (simp_classic_total fuel) t = Some vt -> validated_no_clash vt) ->
   forall FI M,
     refutes_some FI M pbs ->
@@ -199,7 +212,7 @@ Theorem C02_countermodel_proof t L w pbs lft rgt :
      ext_stable_full t FI (reindex (task_mapping t) M) (et_program t) /\
      ~ exists N, pub_agree t N M /\ ext_stable_full t FI N L).
 Proof.
-  intros Hs Ho Hfull HtL HtR El Er Hoc Hn FI M Href.
+  intros Hs Ho Hfull HtL HtR El Er Hn FI M Href.
   destruct (full_ok_inv fuel t w pbs Hfull) as [_ [Hd _]].
   destruct (external_validated is_tight has_private_recursion tau_star_total completion (simp_classic_total fuel)
               t L w pbs Hs Ho Hd) as [lft' [rgt' [uga [w' [El' [Er' [Eu [Hv Htv]]]]]]]].
@@ -212,6 +225,6 @@ Proof.
     apply rename_translated, control_translate_translated. }
   destruct (refuted_stable_premises _ w' pbs Hv eq_refl (Hn _ Htv) Tl Tr FI M Href) as [Hug [Hal Har]].
   cbn in Hug, Hal, Har. rewrite Eu in Hug.
-  exact (proj1 (C02_behaviour_proof t L w pbs lft rgt Hs Ho Hfull HtL HtR El Er Hoc Hn FI M Hug Hal Har) Href).
+  exact (proj1 (C02_behaviour_proof t L w pbs lft rgt Hs Ho Hfull HtL HtR El Er Hn FI M Hug Hal Har) Href).
 Qed.
 End Behaviour.
